@@ -132,7 +132,9 @@ func (r *renderer) capture(s *rstate, ns []Node) (string, Status) {
 	return Text(tmp), st
 }
 
-// EscapeHTML is the reference escaper (canonical spelling: &amp; &lt; &gt; &#34; &#39;).
+// EscapeHTML is the reference escaper. The spellings are those of the official implementation (&amp; &lt; &gt;
+// &quot; &#39;, and &#0; for NUL): with content blocks the escaped text of one print is the data of the next,
+// so the spelling of the inner level is visible in the output.
 func EscapeHTML(s string) string {
 	var b strings.Builder
 	for i := 0; i < len(s); i++ {
@@ -144,7 +146,9 @@ func EscapeHTML(s string) string {
 		case '>':
 			b.WriteString("&gt;")
 		case '"':
-			b.WriteString("&#34;")
+			b.WriteString("&quot;")
+		case 0:
+			b.WriteString("&#0;")
 		case '\'':
 			b.WriteString("&#39;")
 		default:
@@ -591,9 +595,9 @@ func NormalizeRefs(s string) string {
 		return s
 	}
 	return strings.NewReplacer(
-		"&quot;", "&#34;", "&#x22;", "&#34;", "&#X22;", "&#34;", "&#034;", "&#34;",
+		"&#34;", "&quot;", "&#x22;", "&quot;", "&#X22;", "&quot;", "&#034;", "&quot;",
 		"&apos;", "&#39;", "&#x27;", "&#39;", "&#X27;", "&#39;", "&#039;", "&#39;",
 		"&#38;", "&amp;", "&#x26;", "&amp;", "&#60;", "&lt;", "&#x3c;", "&lt;", "&#x3C;", "&lt;",
-		"&#62;", "&gt;", "&#x3e;", "&gt;", "&#x3E;", "&gt;", "&#0;", "\x00",
+		"&#62;", "&gt;", "&#x3e;", "&gt;", "&#x3E;", "&gt;",
 	).Replace(s)
 }
